@@ -249,8 +249,7 @@ func cmdCheck(g *Gen, prop, tier, evid, replayDir, knownPath string, loadSecs fl
 		}
 		for _, n := range names {
 			if k.Trusted != "" {
-				trusted[n] = k.Trusted
-				continue
+				trusted[n] = k.Trusted // its ensures clauses are assumed; safety, error, lock and frame obligations of the body are still generated
 			}
 			fv := g.newFnV(g.funcs[n])
 			if err := fv.run(); err != nil {
@@ -274,6 +273,7 @@ func cmdCheck(g *Gen, prop, tier, evid, replayDir, knownPath string, loadSecs fl
 			}
 		}
 	}
+	obs = append(obs, g.globalObligations(prop)...)
 	for _, l := range g.lemmas {
 		if !hasProp(l.Clause.Props, prop) {
 			continue
